@@ -129,3 +129,50 @@ func VerifDeep() {
 	}
 	verifReach("Deep.end")
 }
+
+func init() {
+	verifRegister("VerifManyRoots", VerifManyRoots)
+}
+
+// VerifManyRoots: many roots in the simple mode (15..18 root blocks of a root and one or two children; the last block
+// may repeat an earlier root's name: roots are never merged): text on both routes equals the reference rendering, and
+// the callback walk visits exactly its lines.
+func VerifManyRoots() {
+	k := 15 + int(verifChoose("roots", 0, 3))
+	rep := int(verifChoose("repeat", 0, uint(k))) // k: the last root's name is new
+	lines := []vLine{}
+	rows := []string{}
+	name := func(i int) string { return "r" + string(rune('0'+i/10)) + string(rune('0'+i%10)) }
+	for i := 0; i < k; i++ {
+		lines = append(lines, vLine{0, name(i)}, vLine{1, "c"})
+		rows = append(rows, "- "+name(i), "  - c")
+		if i%2 == 1 {
+			lines = append(lines, vLine{1, "d"})
+			rows = append(rows, "  - d")
+		}
+	}
+	last := "zz"
+	if rep < k {
+		last = name(rep)
+	}
+	lines = append(lines, vLine{0, last}, vLine{1, "e"})
+	rows = append(rows, "- "+last, "  - e")
+	nodes, roots := specForest(lines)
+	want := specRenderForest(nodes, roots, dLD, dLI, dMD, dMI)
+	verifContext("ManyRoots")
+	switch verifChoose("op", 0, 2) {
+	case 0:
+		out := newVerifWriter()
+		err := OutputFromMarkdown(out, &verifReader{lines: rows})
+		verifAssert(err == nil && out.out == want, "ManyRoots.text/iter")
+	case 1:
+		out := newVerifWriter()
+		err := OutputFromMarkdown(out, &verifReader{lines: rows}, WithNoUseIterOfSimpleOutput())
+		verifAssert(err == nil && out.out == want, "ManyRoots.text/noiter")
+	case 2:
+		got := ""
+		err := WalkFromMarkdown(&verifReader{lines: rows}, func(wn *WalkerNode) error { got += wn.Row() + "\n"; return nil })
+		verifAssert(err == nil && got == want, "ManyRoots.walk")
+	}
+	verifReach("ManyRoots.end")
+}
